@@ -173,7 +173,7 @@ class BoundsProg:
     """Statements on the bounds of a histogram -> a Lean term of type `Option K × Option K` (the state `s = (min, max)`).
 
     Restricted grammar — anything else raises KeyError and the item degrades to its pinned text:
-      statements   `<state>.min = E`, `<state>.max = E`, `if / elif / else` of such blocks, `pass`
+      statements   `<state>.min = E`, `<state>.max = E`, `<state>.min = <state>.max = <atom>`, `if / elif / else` of such blocks, `pass`
       E            a bound (`<state>.min`, `<other>.max`, ...), an atom of `atoms` (a number: `value`, `values.min()`),
                    `min(E, E)`, `max(E, E)` (Python's: `None` operands are a TypeError -> `none`)
       tests        `B is None`, `B is not None`, `(B is None) or (B <cmp> atom)`, `(B is not None) and (B <cmp> atom)`,
@@ -270,6 +270,11 @@ class BoundsProg:
             if isinstance(st, ast.Assign) and len(st.targets) == 1 and self.bound(st.targets[0]) in ("s.1", "s.2"):
                 e = self.expr(st.value)
                 lines.append("(%s, s.2)" % e if self.bound(st.targets[0]) == "s.1" else "(s.1, %s)" % e)
+            elif isinstance(st, ast.Assign) and len(st.targets) > 1 and all(self.bound(t) in ("s.1", "s.2") for t in st.targets) and self.atom(st.value):
+                # `h.min = h.max = value`: the right-hand side (a number, not a bound) is evaluated once, the targets are set left to right
+                e = self.expr(st.value)
+                for t in st.targets:
+                    lines.append("(%s, s.2)" % e if self.bound(t) == "s.1" else "(s.1, %s)" % e)
             elif isinstance(st, ast.If):
                 lines.append("(if %s then %s else %s)" % (self.test(st.test), self.block(st.body, depth + 1), self.block(st.orelse, depth + 1)))
             else:
@@ -306,6 +311,53 @@ def upd_bounds(dist):
     bp = BoundsProg({"h"}, {}, {"value": "value"})
     # `value = _caster(value)` precedes them and nothing re-binds `value` or `h` in between
     return bp.block(bp.adjacent(f.body, "update"))
+
+
+PURE_CALLS = {"_caster", "float", "int", "len", "abs", "numpy.float64", "math.isnan", "math.isinf", "math.isfinite", "isinstance"}
+
+
+def upd_before_reject(dist):
+    """What `update(h, value, count)` has done to the bounds **by the time it refuses a call**: the top-level statements that
+    precede the last point at which the function can still reject its arguments — the cast `value = _caster(value)` (a value
+    that is no number) and the validations `if <test>: raise ...` — in source order, restricted to the statements on the bounds
+    (same grammar as `updBounds`).  On the tree as it is nothing precedes the validation but the cast: the program is the
+    identity `s`.  A statement in that prefix that is neither a bounds statement nor recognisably free of effects on the
+    histogram (an assignment to a local name whose right-hand side calls nothing but casts / `len`) raises KeyError."""
+    f = find_function(dist.tree, "update")
+    params = [a.arg for a in f.args.args]
+    if params[:3] != ["h", "value", "count"]:
+        raise KeyError("update(h, value, count)")
+    bp = BoundsProg({"h"}, {}, {"value": "value"})
+
+    def rejects(st):
+        return isinstance(st, ast.If) and not st.orelse and len(st.body) == 1 and isinstance(st.body[0], ast.Raise)
+
+    def pure(st):
+        if isinstance(st, ast.Expr) and isinstance(st.value, ast.Constant):
+            return True  # docstring
+        if isinstance(st, (ast.Assign, ast.AnnAssign)):
+            targets = st.targets if isinstance(st, ast.Assign) else [st.target]
+            if not all(isinstance(t, ast.Name) and t.id != "h" for t in targets) or st.value is None:
+                return False
+            return all(ast.unparse(c.func) in PURE_CALLS for c in ast.walk(st.value) if isinstance(c, ast.Call))
+        if rejects(st):
+            return all(ast.unparse(c.func) in PURE_CALLS for c in ast.walk(st.test) if isinstance(c, ast.Call))
+        return False
+
+    checks = [i for i, st in enumerate(f.body) if rejects(st) and "count" in {n.id for n in ast.walk(st.test) if isinstance(n, ast.Name)}]
+    if not checks:
+        raise KeyError("update: no top-level `if <test on count>: raise ...`")
+    # a `raise` anywhere else (nested, in a helper) is a rejection this walk does not place
+    raises = [n for n in ast.walk(f) if isinstance(n, ast.Raise)]
+    if len(raises) != len([i for i, st in enumerate(f.body) if rejects(st)]):
+        raise KeyError("update: a raise that is not a top-level validation")
+    before = []
+    for st in f.body[: checks[-1]]:
+        if bp.touches(st):
+            before.append(st)
+        elif not pure(st):
+            raise KeyError("update: `%s` precedes the validation" % ast.unparse(st).split("\n")[0][:40])
+    return bp.block(before)
 
 
 def add_bounds(dist):
@@ -389,6 +441,7 @@ def generate_obj(o, dist):
     ub = o.item("distogram.obj.update_bounds", checked(lambda: upd_bounds(dist), ["value"]), PIN_UPD_BOUNDS)
     ab = o.item("distogram.obj.add_bounds", checked(lambda: add_bounds(dist), ["o", "o.1", "o.2"]), PIN_ADD_BOUNDS)
     bb = o.item("distogram.obj.bulk_bounds", checked(lambda: bulk_bounds(dist), ["lo", "hi"]), PIN_BULK_BOUNDS)
+    ur = o.item("distogram.obj.update_before_reject", checked(lambda: upd_before_reject(dist), ["value"]), "s")
     tgt = o.item("distogram.obj.add_target", lambda: add_target(dist), "self")
     o.files["DistogramObj.lean"] = HEADER + '''/-!
 Facts about histogram *objects* of `orso/profiler/distogram/__init__.py` (harness/extractors/c14.py):
@@ -449,6 +502,13 @@ def updBounds (mn mx : Option K) (value : K) : Option K × Option K :=
   let s := (mn, mx)
   %s
 
+/-- What `update(h, value, count)` has done to `h.min` / `h.max` **when it refuses the call** (`raise ValueError` for a count
+that is not strictly positive): the bounds statements that precede the validation in the source, in source order.  Nothing
+precedes it but the cast of the value when this is `s`. -/
+def updBeforeReject (mn mx : Option K) (value : K) : Option K × Option K :=
+  let s := (mn, mx)
+  %s
+
 /-- The statements of `Distogram.__add__` that set the bounds of the sum after `merge`; `s` = the bounds `merge` left on
 the sum, `o` = the right operand's. -/
 def addBounds (mn mx omn omx : Option K) : Option K × Option K :=
@@ -464,7 +524,7 @@ def bulkBounds (mn mx : Option K) (lo hi : K) : Option K × Option K :=
 end
 
 end Gen.DistogramObj
-''' % (tgt, ub, ab, bb)
+''' % (tgt, ub, ur, ab, bb)
 
 
 def below_expr(prof):
